@@ -55,6 +55,23 @@ func KeyTokens(doc document.Document) []int {
 	return out
 }
 
+// recordingClock is a server-time validator: it records the window it is handed and judges it against its clock.
+type recordingClock struct {
+	now  int64
+	seen [][2]int64
+}
+
+func (r *recordingClock) Validate(from, until int64) error {
+	r.seen = append(r.seen, [2]int64{from, until})
+	if from > r.now {
+		return operationparser.ErrOperationEarly
+	}
+	if r.now > until && (from != 0 || until != 0) {
+		return operationparser.ErrOperationExpired
+	}
+	return nil
+}
+
 func jsonEqual(a, b interface{}) bool {
 	x, err1 := canonicalizer.MarshalCanonical(a)
 	y, err2 := canonicalizer.MarshalCanonical(b)
@@ -129,7 +146,11 @@ func runClientCase(cs *clientCase) (string, interface{}) {
 	params.SignatureAlgorithms = []string{kt.Alg()}
 	params.KeyAlgorithms = []string{kt.String()}
 	params.MultihashAlgorithms = []uint{hash}
-	parser := operationparser.New(params)
+	// intake runs with a server clock that stands at the intended anchoring time T: the request is inside its window, so
+	// the validator must be handed a window that contains T - and exactly the caller's (anchorUntil defaulting to
+	// anchorFrom + the maximum operation time delta)
+	clock := &recordingClock{}
+	parser := operationparser.New(params, operationparser.WithAnchorTimeValidator(clock))
 	// the DID the operation acts on: created with recovery key 1 and update key 4 (possibly nonce-carrying JWKs)
 	rkJWK, rkC, rkRV := jwkOf(1)
 	ukJWK, ukC, ukRV := jwkOf(4)
@@ -210,8 +231,18 @@ func runClientCase(cs *clientCase) (string, interface{}) {
 	if err != nil {
 		return "builder-rejects-valid-input", err.Error()
 	}
+	clock.now = T
 	if _, err := parser.Parse("did:sidetree", req); err != nil {
-		return "not-accepted", map[string]interface{}{"error": err.Error(), "request": string(req)}
+		return "not-accepted", map[string]interface{}{"error": err.Error(), "request": string(req), "server_time": T, "window_handed_to_the_server_clock": clock.seen}
+	}
+	if cs.C.Ty != "C" && (from != 0 || until != 0) {
+		wantUntil := until
+		if wantUntil == 0 {
+			wantUntil = from + int64(params.MaxOperationTimeDelta)
+		}
+		if len(clock.seen) == 0 || clock.seen[0] != [2]int64{from, wantUntil} {
+			return "window-handed-to-the-server-clock-differs", map[string]interface{}{"handed_over": clock.seen, "supplied_from": from, "effective_until": wantUntil, "request": string(req)}
+		}
 	}
 	op, err := parser.ParseOperation("did:sidetree", req, false)
 	if err != nil {
